@@ -10,6 +10,7 @@ import (
 	"sort"
 	"strings"
 
+	"go.pennock.tech/tabular/length"
 	"go.pennock.tech/tabular/texttable/decoration"
 )
 
@@ -56,6 +57,17 @@ func main() {
 	n := flag.Int("n", 100, "number of cases")
 	from := flag.Int("from", 0, "first case number")
 	flag.Parse()
+	if *mode == "race" {
+		raceMain(*prop, *seed, 8, *n, *outDir)
+		return
+	}
+	if *mode == "decorations" {
+		if err := os.WriteFile(*outDir+"/Decorations.lean", []byte(decorationsLean()), 0o644); err != nil {
+			fmt.Fprintln(os.Stderr, err)
+			os.Exit(1)
+		}
+		return
+	}
 	li, _ := os.Create(*outDir + "/lean.in")
 	gout, _ := os.Create(*outDir + "/go.out")
 	gops, _ := os.Create(*outDir + "/go.ops")
@@ -150,4 +162,60 @@ func main() {
 		b, _ := json.MarshalIndent(rep, "", " ")
 		os.WriteFile(*outDir+"/report.json", b, 0o644)
 	}
+}
+
+// decorationsLean dumps the decorations registered at init (by running the real code) with every
+// glyph field as bytes and the library's own measured width of each glyph.
+func decorationsLean() string {
+	var b strings.Builder
+	b.WriteString("-- GENERATED by harness -mode decorations (a run of /repo's code) on every check; do not edit.\nimport Tabmodel.Model.Decoration\nnamespace Tab.Generated\n")
+	bytesLit := func(s string) string {
+		var l []string
+		for i := 0; i < len(s); i++ {
+			l = append(l, fmt.Sprint(s[i]))
+		}
+		return "[" + strings.Join(l, ", ") + "]"
+	}
+	fieldNames := []string{"horizontal", "vertical", "crossPiece", "topDown", "vBorder", "hOuter", "hRule", "vHeader", "vBodyBorder", "vBodyInner", "topLeft", "topRight", "bottomLeft", "bottomRight", "leftBodyRule", "rightBodyRule", "hTopDown", "bTopDown", "bBottomUp", "hBCross", "hBLeft", "hBRight"}
+	decorLit := func(d decoration.Decoration) string {
+		var l []string
+		for i, f := range decorFields(&d) {
+			l = append(l, fmt.Sprintf("%s := %s", fieldNames[i], bytesLit(*f)))
+		}
+		l = append(l, fmt.Sprintf("isBoxless := %v", isBoxless(d)))
+		return "{ " + strings.Join(l, ", ") + " }"
+	}
+	names := decoration.RegisteredDecorationNames()
+	b.WriteString("/-- (name, decoration) for every name registered at init, in listing order -/\ndef builtins : List (Bytes × Decoration) := [\n")
+	for i, n := range names {
+		sep := ","
+		if i == len(names)-1 {
+			sep = ""
+		}
+		fmt.Fprintf(&b, "  (%s, %s)%s\n", bytesLit(n), decorLit(decoration.Named(n)), sep)
+	}
+	b.WriteString("]\n\n/-- texttable's default decoration (UTF8BoxHeavy()) -/\n")
+	fmt.Fprintf(&b, "def heavy : Decoration := %s\n\n", decorLit(decoration.UTF8BoxHeavy()))
+	b.WriteString("/-- length.StringCells of every distinct glyph used by a built-in, measured by the library -/\ndef glyphWidths : List (Bytes × Nat) := [\n")
+	seen := map[string]bool{}
+	var gl []string
+	for _, n := range names {
+		d := decoration.Named(n)
+		for _, f := range decorFields(&d) {
+			if !seen[*f] {
+				seen[*f] = true
+				gl = append(gl, *f)
+			}
+		}
+	}
+	sort.Strings(gl)
+	for i, g := range gl {
+		sep := ","
+		if i == len(gl)-1 {
+			sep = ""
+		}
+		fmt.Fprintf(&b, "  (%s, %d)%s\n", bytesLit(g), length.StringCells(g), sep)
+	}
+	b.WriteString("]\nend Tab.Generated\n")
+	return b.String()
 }
